@@ -63,6 +63,16 @@ class Inputs(object):
         bev = bev[rnd.permutation(len(bev))]
         self.bpath = os.path.join(d, 'beads.fcs')
         fcsgen.write_sample(self.bpath, bev.tolist(), ['FSC', 'SSC', 'FL1'], [1024] * 3, bits=16, pne=['0,0', '0,0', '4,1'])
+        # beads acquired with a LINEAR amplifier: the calibrated channel's range starts at 0 also in RFI
+        pops = []
+        for k, mu in enumerate([30, 100, 320, 900]):
+            m = 250
+            pops.append(np.stack([np.clip(rnd.normal(500, 15, m), 1, 1022), np.clip(rnd.normal(450, 15, m), 1, 1022),
+                                  np.clip(rnd.normal(mu, 0.03 * mu, m), 1, 1022)], axis=1).astype(int))
+        lev = np.concatenate(pops)
+        lev = lev[rnd.permutation(len(lev))]
+        self.lpath = os.path.join(d, 'beads_lin.fcs')
+        fcsgen.write_sample(self.lpath, lev.tolist(), ['FSC', 'SSC', 'FL1'], [1024] * 3, bits=16, pne=['0,0', '0,0', '0,0'])
 
     def raw(self):
         with warnings.catch_warnings():
@@ -266,6 +276,27 @@ def registry(I):
                                                         statistic_params=a['stp'], fitting_params=a['fp'], full_output=True).mef_channels,
                 {'s': I.beads(), 'mef': [[800., 4000., 30000., 150000.]], 'ch': ['FL1'], 'cp': {}, 'sp': {}, 'stp': {}, 'fp': {}})
     add('mef.get_transform_fxn', 'one-channel', gtf, heavy=True, seeded=True)
+
+    def gtf_plots(raw):
+        def build():
+            import matplotlib.pyplot as plt
+            pd_ = os.path.join(tlc.scratch('c13p_'), 'plots')
+
+            def call(a):
+                try:
+                    return FlowCal.mef.get_transform_fxn(a['s'], a['mef'], a['ch'], plot=True, plot_dir=pd_, plot_filename='b',
+                                                         full_output=True).mef_channels
+                finally:
+                    plt.close('all')
+            with warnings.catch_warnings():
+                warnings.simplefilter('ignore')
+                # raw: beads acquired with a linear amplifier, the calibrated channel's range starts at 0 (the diagnostic plots then move the lower
+                # axis limit - of their own copy)
+                smp = FlowCal.transform.to_rfi(FlowCal.io.FCSData(I.lpath)) if raw else I.beads()
+            return call, {'s': smp, 'mef': [[800., 4000., 30000., 150000.]], 'ch': ['FL1']}
+        return build
+    add('mef.get_transform_fxn', 'diagnostic-plots/rfi', gtf_plots(False), heavy=True, seeded=True)
+    add('mef.get_transform_fxn', 'diagnostic-plots/range-from-zero', gtf_plots(True), heavy=True, seeded=True)
 
     def psc():
         out = FlowCal.mef.fit_beads_autofluorescence(np.array([10., 60., 400., 2000.]), np.array([800., 4000., 30000., 150000.]))
